@@ -197,7 +197,7 @@ class Sched:
 
     def wait_ctrl(self, k=1):
         for _ in range(k):
-            if not self.ctrl.acquire(timeout=20):
+            if not self.ctrl.acquire(timeout=120):
                 raise Hang()
 
     def run(self, bodies):
@@ -312,6 +312,92 @@ def preemptions(trace, enabled_sets):
         if trace[j] != trace[j - 1] and trace[j - 1] in enabled_sets[j]:
             n += 1
     return n
+
+
+def merges(lens):
+    """all thread-id sequences exhausting programs of the given lengths (= all sequential orders)"""
+    rem = list(lens)
+    acc = []
+
+    def rec():
+        if not any(rem):
+            yield list(acc)
+            return
+        for t in range(len(rem)):
+            if rem[t]:
+                rem[t] -= 1
+                acc.append(t)
+                yield from rec()
+                acc.pop()
+                rem[t] += 1
+    yield from rec()
+
+
+def ref_run_container(cap, progs, order):
+    """sequential execution of the programs in thread order `order` on the reference LRU"""
+    ref = RefLRU(cap)
+    pos = [0] * len(progs)
+    rres = [[] for _ in progs]
+    rdisp = []
+    for t in order:
+        r, d = ref.apply(progs[t][pos[t]])
+        pos[t] += 1
+        rres[t].append(r)
+        rdisp += d
+    return rres, ref.items(), sorted(rdisp)
+
+
+def ref_run_manager(cap, progs, order):
+    ref = RefLRU(cap)
+    pos = [0] * len(progs)
+    rres = [[] for _ in progs]
+    nxt = 0
+    for t in order:
+        op = progs[t][pos[t]]
+        pos[t] += 1
+        if op[0] == "g":
+            hit, v = ref.touch(op[1])
+            if hit:
+                rres[t].append("p%d=" % v)
+            else:
+                ref.apply(["set", op[1], nxt])
+                rres[t].append("p%d+" % nxt)
+                nxt += 1
+        elif op[0] == "c":
+            ref.apply(["clear"])
+            rres[t].append("ok")
+        else:
+            rres[t].append("n%d" % len(ref.d))
+    return rres, ref.items()
+
+
+def canon_pools(results, items):
+    """rename pool ids in order of first appearance (threads in order, then the cache)"""
+    ren = {}
+
+    def r(i):
+        if i not in ren:
+            ren[i] = len(ren)
+        return ren[i]
+    out = []
+    for rs in results:
+        o = []
+        for x in rs:
+            if x.startswith("p"):
+                o.append("p%d%s" % (r(int(x[1:-1])), x[-1]))
+            else:
+                o.append(x)
+        out.append(o)
+    return out, [(k, r(v)) for k, v in items]
+
+
+def lock_order_fits(order, progs):
+    cnt = [0] * len(progs)
+    for t in order:
+        if t >= len(progs):
+            return False
+        cnt[t] += 1
+    return cnt == [len(p) for p in progs]
 
 
 # =============================================================================== fake pools
@@ -451,6 +537,22 @@ class C17(Prop):
         return p
 
     def cases(self, rng, tier, escalate=False):
+        """two streams interleaved (period 3, coprime to the shard count) so that a deadline on a loaded machine
+        cuts both proportionally: the big exhaustive sequential enumeration, and everything else (random
+        sequential, schedules, manager)"""
+        a = self.cases_exhaustive(tier, escalate)
+        b = self.cases_other(rng, tier, escalate)
+        while True:
+            y = next(b, None)
+            x1 = next(a, None)
+            x2 = next(a, None)
+            if x1 is None and y is None:
+                return
+            for c in (y, x1, x2):
+                if c is not None:
+                    yield c
+
+    def cases_exhaustive(self, tier, escalate=False):
         deep = tier == "thorough" or escalate
         # --- sequential, exhaustive
         L = 7 if deep else 6
@@ -466,6 +568,25 @@ class C17(Prop):
             for a in ops1:
                 for b in ops1:
                     yield {"kind": "seqblock-raw", "cap": cap, "prefix": [a, b], "depth": 1 if not deep else 2}
+
+    def cases_other(self, rng, tier, escalate=False):
+        deep = tier == "thorough" or escalate
+        # --- small programs explored COMPLETELY (observed outcome set must equal the model's)
+        tiny = [
+            (1, [[["set", 0, 101], ["get", 0]], [["set", 0, 201], ["del", 0]]]),
+            (0, [[["set", 0, 101], ["has", 0]], [["set", 0, 201], ["keys"]]]),
+            (1, [[["set", 0, 101], ["set", 1, 102]], [["mget", 0]], [["clear"]]]),
+            (2, [[["set", 0, 101], ["set", 0, 102]], [["set", 1, 201], ["set", 2, 202]]]),
+        ]
+        for cap, progs in tiny:
+            yield {"kind": "explore", "cap": cap, "progs": progs, "bound": 99, "maxruns": 20000}
+        mtiny = [
+            (2, [[["g", 0, 0]], [["g", 0, 1]]]),
+            (1, [[["g", 0, 0], ["g", 1, 0]], [["g", 0, 2]]]),
+            (1, [[["g", 0, 0]], [["c"]], [["g", 0, 3]]]),
+        ]
+        for cap, progs in mtiny:
+            yield {"kind": "mexplore", "cap": cap, "progs": progs, "bound": 99, "maxruns": 20000}
         # --- random long sequential (cap up to 5, 6 keys)
         for _ in range(20000 if deep else 1500):
             cap = rng.choice([0, 1, 2, 3, 3, 4, 5])
@@ -636,32 +757,26 @@ class C17(Prop):
             viol.append(("hang", "threads blocked / did not reach a scheduling point (deadlock or lock not released)"))
         items = list(c._container.items())
         disp_vals = [v for _, v in log]
-        # ---- oracle: linearizability in observed lock order against the python reference
+        # ---- oracle: linearizability against the python reference LRU
         order = [t for t in lock.order if t >= 0]
         if not hang:
-            ref = RefLRU(cap)
-            pos = [0] * n
-            rres = [[] for _ in range(n)]
-            rdisp = []
-            ok_order = True
-            for t in order:
-                if pos[t] >= len(progs[t]):
-                    ok_order = False
-                    break
-                r, d = ref.apply(progs[t][pos[t]])
-                pos[t] += 1
-                rres[t].append(r)
-                rdisp += d
-            if not ok_order or pos != [len(p) for p in progs]:
-                viol.append(("lock-count", "operations did not take the lock exactly once each (lock order %s)" % order))
-            else:
-                if rres != results or ref.items() != items:
+            if lock_order_fits(order, progs):
+                # every operation took the lock once: the linearization order is the lock order
+                rres, ritems, rdisp = ref_run_container(cap, progs, order)
+                if rres != results or ritems != items:
                     viol.append(("not-linearizable", "results %s / items %s differ from the sequential execution in lock "
-                                                     "order %s: %s / %s" % (results, items, order, rres, ref.items())))
-                if sorted(rdisp) != sorted(disp_vals):
+                                                     "order %s: %s / %s" % (results, items, order, rres, ritems)))
+                if rdisp != sorted(disp_vals):
                     dup = sorted({v for v in disp_vals if disp_vals.count(v) > 1})
                     kind = "dispose-twice" if dup else "dispose-multiset"
-                    viol.append((kind, "dispose calls %s differ from the sequential execution's %s" % (sorted(disp_vals), sorted(rdisp))))
+                    viol.append((kind, "dispose calls %s differ from the sequential execution's %s" % (sorted(disp_vals), rdisp)))
+            else:
+                # other locking structure: is there ANY sequential order explaining the observation?
+                res.bump("lock_count_mismatch")
+                obs = (results, items, sorted(disp_vals))
+                if not any(ref_run_container(cap, progs, o) == obs for o in merges([len(p) for p in progs])):
+                    viol.append(("not-linearizable", "results %s / items %s / disposed %s are not those of any sequential "
+                                                     "order of the operations" % obs))
             inserted = sorted(o[2] for p in progs for o in p if o[0] == "set")
             if sorted(disp_vals + [v for _, v in items]) != inserted:
                 viol.append(("dispose-conservation", "inserted %s != held %s + disposed %s" % (inserted, items, disp_vals)))
@@ -683,7 +798,7 @@ class C17(Prop):
         out = [("open " if hang else "done ") + outcome + "|L" + (",".join("%d:%d" % e for e in log) if log else "-") + "|H" + dots(order),
                "in"]
         return {"trace": list(sched.trace), "enabled": list(sched.enabled_sets), "lines": lines, "out": out,
-                "ndisp": len(log), "hang": hang}
+                "ndisp": len(log), "hang": hang, "outcome": outcome, "setline": "outcomes %d %s" % (cap, ptok)}
 
     # ------------------------------------------------------------------ manager
     def new_manager(self, cap):
@@ -844,39 +959,20 @@ class C17(Prop):
         items = self.cache_items(pm)
         order = [t for t in lock.order if t >= 0]
         if not hang:
-            # same key -> same pool: replay the lock order on a plain dict-of-cached-origins reference
-            ref = RefLRU(cap)
-            pos = [0] * n
-            nxt = 0
-            rres = [[] for _ in range(n)]
-            okc = True
-            for t in order:
-                if pos[t] >= len(progs[t]):
-                    okc = False
-                    break
-                op = progs[t][pos[t]]
-                pos[t] += 1
-                if op[0] == "g":
-                    hit, v = ref.touch(op[1])
-                    if hit:
-                        rres[t].append("p%d=" % v)
-                    else:
-                        ref.apply(["set", op[1], nxt])
-                        rres[t].append("p%d+" % nxt)
-                        nxt += 1
-                elif op[0] == "c":
-                    ref.apply(["clear"])
-                    rres[t].append("ok")
-                else:
-                    rres[t].append("n%d" % len(ref.d))
-            if not okc or pos != [len(p) for p in progs]:
-                viol.append(("lock-count", "a get-or-create did not run as ONE locked section (lock acquisitions by thread: %s, "
-                                           "programs %s)" % (order, [len(p) for p in progs])))
-            elif rres != results or ref.items() != items:
-                viol.append(("same-key-different-pool" if len({r for rs in results for r in rs if r.endswith("+")}) >
-                             len({r for rs in rres for r in rs if r.endswith("+")}) else "not-linearizable",
-                             "results %s / cache %s differ from get-or-create in lock order %s: %s / %s"
-                             % (results, items, order, rres, ref.items())))
+            # linearizability of get-or-create / clear against the reference (pool ids in creation order)
+            if lock_order_fits(order, progs):
+                rres, ritems = ref_run_manager(cap, progs, order)
+                if rres != results or ritems != items:
+                    viol.append(("same-key-different-pool" if len({r for rs in results for r in rs if r.endswith("+")}) >
+                                 len({r for rs in rres for r in rs if r.endswith("+")}) else "not-linearizable",
+                                 "results %s / cache %s differ from get-or-create in lock order %s: %s / %s"
+                                 % (results, items, order, rres, ritems)))
+            else:
+                res.bump("lock_count_mismatch")
+                obs = canon_pools(results, items)
+                if not any(canon_pools(*ref_run_manager(cap, progs, o)) == obs for o in merges([len(p) for p in progs])):
+                    viol.append(("not-linearizable", "results %s / cache %s are not those of any sequential order of the "
+                                                     "requests (pool ids up to renaming)" % (results, items)))
             # direct clause: all pools handed out for an origin that never left the cache are one object
             if not any(op[0] == "c" for p in progs for op in p) and cap >= len({op[1] for p in progs for op in p if op[0] == "g"}):
                 byk = {}
@@ -921,21 +1017,30 @@ class C17(Prop):
         outcome = ("R" + "/".join(",".join(r) if r else "-" for r in results) + "|I" + show_items(items) + "|X" + dots(dropped))
         lines = ["mconc %d %s %s" % (cap, ptok, dots(sched.trace)), "mmember %d %s %s" % (cap, ptok, outcome)]
         out = [("open " if hang else "done ") + outcome + "|L-|H" + dots(order), "in"]
-        return {"trace": list(sched.trace), "enabled": list(sched.enabled_sets), "lines": lines, "out": out, "hang": hang}
+        return {"trace": list(sched.trace), "enabled": list(sched.enabled_sets), "lines": lines, "out": out, "hang": hang,
+                "outcome": outcome, "setline": "moutcomes %d %s" % (cap, ptok)}
 
     # ------------------------------------------------------------------ exploration
     def explore(self, runner, bound, maxruns, res):
-        """all schedules with at most `bound` pre-emptions (depth-first over re-executions)"""
+        """all schedules with at most `bound` pre-emptions (depth-first over re-executions).  When the exploration
+        is complete (no pre-emption bound hit, not truncated) the set of observed outcomes must EQUAL the model's
+        outcome set (`outcomes` line), not only be included in it."""
         lines, out = [], []
         stack = [[]]
         runs = 0
+        observed = set()
+        setline = None
+        clean = True
         while stack and runs < maxruns:
             prefix = stack.pop()
             r = runner(chooser_from_prefix(prefix))
             runs += 1
             lines += r["lines"]
             out += r["out"]
+            observed.add(r["outcome"])
+            setline = r["setline"]
             if r["hang"] or len(res.failures) > 20:
+                clean = False
                 break
             tr, en = r["trace"], r["enabled"]
             for j in range(len(tr) - 1, len(prefix) - 1, -1):
@@ -947,6 +1052,10 @@ class C17(Prop):
         res.bump("schedules_explored", runs)
         if stack:
             res.bump("explore_truncated")
+        elif clean and bound >= 99 and setline:
+            res.bump("explore_complete")
+            lines.append(setline)
+            out.append(" ".join(sorted(observed)))
         return lines, out
 
     # ------------------------------------------------------------------ engine hooks
